@@ -11,10 +11,10 @@ import (
 // includeIfExists is include-or-false.
 
 func c09Mk(log *[]string) rj.Inputs {
-	return rj.Inputs{Vars: map[string]interface{}{"cT": true, "cF": false, "rS": []string{"e1", "e2"}, "nameVar": "", "dir": "/sub/", "nilv": nil}, Data: "D"}
+	return rj.Inputs{Vars: map[string]interface{}{"cT": true, "cF": false, "rS": []string{"e1", "e2"}, "rOne": []string{"one"}, "nameVar": "", "dir": "/sub/", "nilv": nil}, Data: "D"}
 }
 
-const c09NCallee = 29
+const c09NCallee = 31
 
 // c09Callee builds the callee file set for shape k; it returns the callee's files and whether it exists.
 func c09Callee(k int, name string) (files []*rj.File, exists bool) {
@@ -95,6 +95,10 @@ func c09Callee(k int, name string) (files []*rj.File, exists bool) {
 	case 27: // ... through includeIfExists with a context
 		f.Body = []rj.Stmt{rj.T("a"), rj.E(&rj.IncIf{Name: rj.S("/sub/retleaf.jet"), Ctx: rj.S("IC")}), rj.T("b")}
 		files = append(files, retInc)
+	case 29: // returns its context: what '.' is inside an exec is only visible this way (the output is discarded)
+		f.Body = []rj.Stmt{rj.T("x"), &rj.Return{E: &rj.Dot{}}}
+	case 30: // returns a caller variable read inside a range of its own
+		f.Body = []rj.Stmt{&rj.Range{X: rj.V("rOne"), Body: []rj.Stmt{&rj.Return{E: &rj.Bin{Op: "+", L: rj.V("cv"), R: &rj.Dot{}}}}}}
 	case 28: // ... through a yield with a context, of a block that returns
 		f.Body = []rj.Stmt{rj.T("a"), &rj.BlockDef{Name: "rb2", Ctx: rj.S("BC"), Body: []rj.Stmt{rj.T("blk"), rj.E(&rj.Dot{}), ret("R-block-ctx")}}, rj.T("b")}
 	}
@@ -239,7 +243,7 @@ var c09Space = registerSpace(&e1Space{
 })
 
 func C09(r *core.Run) map[string]interface{} {
-	r.Rule = "call kind (include, exec, includeIfExists as action and as condition, exec inside isset) x call site nested <=2 deep over 7 frames (top, range, block, try, include, content, if) x context x 6 name forms (incl. one computed from the caller's context) x 3 referrer depths x 26 callee shapes (return at every position, return followed by each statement kind, extends chains 1-3, declarations, caller blocks, failing, missing); after the call the caller probes its variables, context and blocks; distinct = distinct reference outcomes"
+	r.Rule = "call kind (include, exec, includeIfExists as action and as condition, exec inside isset) x call site nested <=2 deep over 7 frames (top, range, block, try, include, content, if) x context x 6 name forms (incl. one computed from the caller's context) x 3 referrer depths x 31 callee shapes (return at every position, return followed by each statement kind, extends chains 1-3, declarations, caller blocks, failing, missing); after the call the caller probes its variables, context and blocks; distinct = distinct reference outcomes"
 	runSpace(r, c09Space)
 	return map[string]interface{}{"callee_shapes": c09NCallee, "sites": c09NSites, "traces_validated_against_impl": r.Evals()}
 }
